@@ -17,7 +17,7 @@ HOOK_COMMITS = [
 
 ALL_POLICIES = ["fifo", "lru", "lfu", "arc", "random", "tlru"]
 
-def core_stream(filters=None, nontrivial=(), quick=360, thorough=20000, what="", enumerate_=None):
+def core_stream(filters=None, nontrivial=(), quick=1000, thorough=20000, what="", enumerate_=None):
     return {
         "kind": "core",
         "what": what or "L1: real GlobalCache / ThreadLocalCache / AsyncGlobalCache over harness-owned stores vs Cachelito.step, full state per step",
@@ -30,16 +30,16 @@ def core_stream(filters=None, nontrivial=(), quick=360, thorough=20000, what="",
 
 SMALL_SCOPE = [(fl, pol, lim, 5) for fl in ("global", "thread", "async") for pol in ALL_POLICIES for lim in (1, 2)]
 
-def macro_stream(nontrivial=(), quick=320, thorough=12000, what=""):
+def macro_stream(nontrivial=(), quick=1200, thorough=20000, what=""):
     return {
         "kind": "macro",
         "what": what or "L2: real #[cache]/#[cache_async] generated functions (corpus of 110 decorated functions: 48 random attribute x signature x return-type combinations, 4 fixed ones, 30 systematic flavour x policy combinations with limit+invalidate_on / max_memory+cache_if, 12 further signature shapes (two integers, methods with string+integer and three scalars, Vec, tuple, Option+f64, destructuring tuple patterns) sync and async, 12 plain functions (every policy, sync global and async)), real invalidation and statistics registries, real threads for thread scope, virtual time through the verif hooks vs Cachelito.sysStep; outputs, predicate logs, statistics and the dump of every cache instance compared per operation",
         "episodes": {"quick": quick, "thorough": thorough},
-        "ops": {"quick": 40, "thorough": 80},
+        "ops": {"quick": 50, "thorough": 80},
         "nontrivial": list(nontrivial),
     }
 
-def sched_stream(nontrivial=(), quick=(6, 4, 120), thorough=(36, 10, 1000), what=""):
+def sched_stream(nontrivial=(), quick=(6, 8, 100), thorough=(36, 12, 1000), what=""):
     return {"kind": "sched", "budget": {"quick": quick, "thorough": thorough}, "nontrivial": list(nontrivial),
             "what": what or "L3: 2-3 real threads running short programs (calls that overflow a hot cache, tag/event/name/conditional invalidations, statistics queries) on real generated functions under a deterministic scheduler that switches at every lock acquisition (hook H1): seeded random schedules, then stateless DFS (exhaustive when the space fits the budget); deadlock = all unfinished threads parked at held locks; every operation's real lock trace checked against the Lean skeleton; the real schedule replayed on the data-carrying interleaving model; quiescent dumps; sequential probe history vs the model"}
 
@@ -72,7 +72,7 @@ PROPS = {
     "C01": {
         "lean_modules": ["Cachelito.Props.C01", "Cachelito.Props.C01b", "Cachelito.Props.C01c"],
         "streams": [core_stream(nontrivial=["hit", "re-store"]), macro_stream(nontrivial=["hit"]),
-                    sched_stream(nontrivial=['served-call-source-checked'], quick=(6, 4, 80), what="L3: scheduled runs of 2-3 real threads (calls racing with stores of the same key and with invalidations): every call returns the function's value for its own arguments, and a call served from the cache has a legitimate source (a store for the same arguments that no completed invalidation separates from it)")],
+                    sched_stream(nontrivial=['served-call-source-checked'], quick=(6, 8, 60), what="L3: scheduled runs of 2-3 real threads (calls racing with stores of the same key and with invalidations): every call returns the function's value for its own arguments, and a call served from the cache has a legitimate source (a store for the same arguments that no completed invalidation separates from it)")],
         "monitors": ["C01"],
         "rule": "L1: generated engine histories; non-trivial = a lookup that returned a value or a store that replaced one. L2: generated call histories on real generated functions; non-trivial = a call served from the cache; distinct by (config, pre-state, op) resp. (op, observation)",
         "level_text": "Lean theorems: in every history of every flavour/policy/configuration a lookup returns exactly the value of the latest store under that key (never a value stored under another key, never a replaced one); the store always holds the latest value per key. Tied to the code by per-step full-state comparison (engines) and per-call comparison of returned values, traces and cache dumps (generated functions); monitors: returned value = value of the latest store (L1), = the deterministic body's value for the arguments (L2).",
@@ -94,7 +94,7 @@ PROPS = {
     "C03": {
         "lean_modules": ["Cachelito.Props.C03", "Cachelito.Props.C03c"],
         "streams": [macro_stream(nontrivial=["c03-call"]), hammer_stream(),
-                    sched_stream(nontrivial=["c03-plain-concurrent-run", "calls-only-quiescent-check"], quick=(6, 4, 80),
+                    sched_stream(nontrivial=["c03-plain-concurrent-run", "calls-only-quiescent-check"], quick=(6, 8, 60),
                                  what="L3 calls-only programs: 2-3 real threads call ONE cache with overlapping arguments under the deterministic scheduler (switches at every lock acquisition, so lookups fall between the two halves of another thread's store); plain caches of every policy: once a storing call has returned no later call may run the body; limited caches: a stored key may vanish only from a FULL cache")],
         "monitors": ["C03"],
         "rule": "call histories on real generated functions; non-trivial = a call of a function configured without limit/ttl/max_memory/predicates before any invalidation touched it (the configuration the property speaks about)",
@@ -105,7 +105,7 @@ PROPS = {
     "C14": {
         "lean_modules": ["Cachelito.Props.C14"],
         "streams": [macro_stream(nontrivial=["c14-shared-hit", "call"]), hammer_stream(),
-                    sched_stream(nontrivial=["c03-plain-concurrent-run", "calls-only-quiescent-check"], quick=(6, 4, 80),
+                    sched_stream(nontrivial=["c03-plain-concurrent-run", "calls-only-quiescent-check"], quick=(6, 8, 60),
                                  what="L3 calls-only programs on shared (global / async) caches under the deterministic scheduler: a value stored by a call that has returned is served to every call that starts later on any thread; a stored key vanishes only from a full cache")],
         "monitors": ["C14"],
         "rule": "call histories distributed over 3 real threads (thread-scope functions called on any of them, global/async functions too); non-trivial = any call (every call checks the frame: no other instance changes) ",
@@ -141,7 +141,7 @@ PROPS = {
         "streams": [core_stream(nontrivial=["memory-store"], what="L1 restricted to nothing: all flavours/policies, memory-aware stores with sizes around max_memory"),
                     lines_stream("mem_diff", "mem", ["{seed}", "{n}"], 60, 600,
                                  "estimator: random values of 85 Rust types (String/Vec with chosen capacities, nested Option/Result/tuple/Box/Arc/Rc, CacheEntry) through the REAL estimate_memory() vs MemEst.estimate; independent footprint walk", r"\|"),
-                    sched_stream(nontrivial=['quiescent-cache-checked'], quick=(6, 4, 80), what="L3: scheduled runs on memory-bounded caches (memory-aware stores racing with each other and with invalidations): at quiescence the estimated total is within max_memory"), hammer_stream()],
+                    sched_stream(nontrivial=['quiescent-cache-checked'], quick=(6, 8, 60), what="L3: scheduled runs on memory-bounded caches (memory-aware stores racing with each other and with invalidations): at quiescence the estimated total is within max_memory"), hammer_stream()],
         "monitors": ["C05"],
         "rule": "L1: memory-aware stores on the real engines with value sizes around max_memory (exact fit, one byte over, oversize); non-trivial = a memory-aware store with max_memory set. Estimator: one random value per line, distinct lines counted",
         "level_text": "Lean theorems: (engine) after every memory-aware store total size <= max_memory for every history, an oversize value changes nothing but its own key, the memory loop removes exactly the shortest prefix of the policy's victim sequence after which the total fits (nothing when it already fits) and always terminates; (estimator) estimate = inline + owned heap (+ borrowed bytes for &str/&[T]), never below the inline size. Tied to the code per step (engines, full state) and per value (estimator).",
@@ -152,7 +152,7 @@ PROPS = {
     "C06": {
         "lean_modules": ["Cachelito.Props.C06"],
         "streams": [core_stream(nontrivial=["expiry", "ttl-boundary"]),
-                    sched_stream(nontrivial=['served-call-source-checked', 'concurrent-call'], quick=(6, 4, 80), what="L3: scheduled runs that start from EXPIRED entries (stored, then aged past the ttl through the verif hook): a call is served from the cache only if some call stored the key again; expired-lookup paths race with stores and with each other")],
+                    sched_stream(nontrivial=['served-call-source-checked', 'concurrent-call'], quick=(6, 8, 60), what="L3: scheduled runs that start from EXPIRED entries (stored, then aged past the ttl through the verif hook): a call is served from the cache only if some call stored the key again; expired-lookup paths race with stores and with each other")],
         "monitors": ["C06"],
         "rule": "generated episodes with time steps around the TTL boundary (T-0.1s, T, T+0.1s, whole seconds for async); non-trivial = a lookup of an entry within one second of the boundary or an expiry purge",
         "level_text": "Lean theorems: with ttl = T a lookup of an entry of age >= T s returns nothing, counts a miss and removes the key from store and queue (so it no longer occupies capacity: a following store into the previously full cache evicts nothing); a younger entry (sync: age < T; async: real age <= T-1 s, exact characterisation by the whole-second stamps) is served; at history level a served value always has real age < T. All flavours, policies, limits.",
@@ -172,7 +172,7 @@ PROPS = {
     },
     "C08": {
         "lean_modules": ["Cachelito.Props.C08"],
-        "streams": [core_stream(filters=[["policy=lfu"], ["policy=arc"], ["policy=tlru"]], nontrivial=["eviction"], quick=420, thorough=24000)],
+        "streams": [core_stream(filters=[["policy=lfu"], ["policy=arc"], ["policy=tlru"]], nontrivial=["eviction"], quick=1200, thorough=24000)],
         "monitors": ["C08"],
         "rule": "LFU / ARC / TLRU episodes on all three engines, limits 1..4, ttl none/1..3, frequency_weight none/0.1/0.3/1/1.5/3, entry and memory pressure; non-trivial = a store that evicted; the driver mirrors the f64 score exactly",
         "level_text": "Lean theorems: the victim scan returns the FIRST minimiser of the policy's score among stored queue keys for any strict-weak-order comparison (LFU: hits; ARC: hits x rank; TLRU: any scorer), every eviction of a store (limit step and memory loop) is such a victim; LFU victims have the fewest successful lookups (hit counters equal the history's count); async ARC/TLRU: among equally popular entries the least recently used goes first; sync engines: the victim is the first entry with a zero factor, so weight form and rank orientation are unobservable there; TLRU without ttl and weight coincides with ARC on every history.",
@@ -182,7 +182,8 @@ PROPS = {
     },
     "C09": {
         "lean_modules": ["Cachelito.Props.C09"],
-        "streams": [macro_stream(nontrivial=["c09-call"])],
+        "streams": [macro_stream(nontrivial=["c09-call"]),
+                    sched_stream(nontrivial=["c09-concurrent-run"], quick=(6, 8, 80), what="L3 calls-only programs on PLAIN Result functions with an impure body (one thread's calls succeed, the others' fail for the same arguments) under the deterministic scheduler: an Err is never served from the cache, and once an Ok-storing call has returned every call started later is served without running the body (a failing call that finishes late does not disturb the stored Ok)")],
         "monitors": ["C09"],
         "rule": "generated call histories on real generated functions with scripted Ok/Err outcomes per call (impure body driven by the harness), both recognised Result spellings, all flavours, with and without max_memory; non-trivial = a call of a Result function without cache_if",
         "level_text": "Lean theorems about the generated wrapper: an Err outcome leaves the cache exactly as the lookup left it, an Ok is handed to the engine, the body runs iff the lookup missed, every stored value is Ok in every reachable state (no call is ever served an Err), while all outcomes for a key were Err every call runs the body, and after the first Ok (absent eviction pressure) every later call is served it. Tied to the code by per-call comparison of return values, body-execution counts and cache dumps of real generated functions.",
@@ -211,7 +212,7 @@ PROPS = {
     "C12": {
         "lean_modules": ["Cachelito.Props.C12", "Cachelito.Props.C12r"],
         "streams": [macro_stream(nontrivial=["group-invalidation-hit"]), reg_stream(),
-                    sched_stream(nontrivial=['concurrent-tag', 'concurrent-cache', 'concurrent-event'], quick=(6, 4, 80), what="L3: scheduled runs in which group / name invalidations race with calls: a call that starts after an invalidation has COMPLETED is never served an entry stored before that invalidation began")],
+                    sched_stream(nontrivial=['concurrent-tag', 'concurrent-cache', 'concurrent-event'], quick=(6, 8, 60), what="L3: scheduled runs in which group / name invalidations race with calls: a call that starts after an invalidation has COMPLETED is never served an entry stored before that invalidation began")],
         "monitors": ["C12"],
         "rule": "episodes over 4 real generated functions drawn from a corpus with random tag/event/dependency/name metadata (sync and async mixed, name overrides), requests including undeclared names; non-trivial = a group invalidation that matched at least one registered cache",
         "level_text": "Lean theorems over the system model (caches + invalidation registry): after a tag/event/dependency/name request every registered matching cache has empty store and queue, the returned count/boolean equals the number of such caches, unknown names change nothing, and the next call for any arguments runs the body (also after arbitrary other operations). Tied to the code by return values and the verif dumps of every cache instance after each operation.",
@@ -221,7 +222,7 @@ PROPS = {
     "C13": {
         "lean_modules": ["Cachelito.Props.C13", "Cachelito.Props.C12r"],
         "streams": [macro_stream(nontrivial=["conditional-invalidation-removed", "group-invalidation-hit"]), reg_stream(),
-                    sched_stream(nontrivial=['concurrent-with', 'concurrent-allwith'], quick=(6, 4, 80), what="L3: scheduled runs in which conditional invalidations race with calls: a key matched by a completed invalidate_with / invalidate_all_with is not served from an entry stored before it began; non-matching caches and keys are untouched at quiescence (dump replayed on the interleaving model)")],
+                    sched_stream(nontrivial=['concurrent-with', 'concurrent-allwith'], quick=(6, 8, 60), what="L3: scheduled runs in which conditional invalidations race with calls: a key matched by a completed invalidate_with / invalidate_all_with is not served from an entry stored before it began; non-matching caches and keys are untouched at quiescence (dump replayed on the interleaving model)")],
         "monitors": ["C13"],
         "rule": "episodes with invalidate_with / invalidate_all_with over random subsets of the stored keys and group invalidations, followed by further overflow histories; non-trivial = an invalidation that removed something",
         "level_text": "Lean theorems: group invalidations leave every non-matching cache instance (incl. thread-scope ones) equal; invalidate_with / invalidate_all_with yield exactly store.filter(not p) and queue.filter(not p) with survivors' order, values, births and hit counters kept; the invariant is preserved system-wide; sizes and memory totals afterwards are those of the survivors, a following overflow evicts the oldest survivor, and invalidation commutes with stores of the survivors. Tied to the code by dumps of every cache instance after each operation.",
@@ -231,7 +232,7 @@ PROPS = {
     "C17": {
         "lean_modules": ["Cachelito.Props.C17", "Cachelito.Props.C17s"],
         "streams": [sched_stream(nontrivial=["nested-acquisition"]), static_stream(),
-                    core_stream(nontrivial=["eviction", "expiry"], quick=300, thorough=12000,
+                    core_stream(nontrivial=["eviction", "expiry"], quick=600, thorough=12000,
                                 what="L1 engine histories with injected orphan queue slots (the states concurrent invalidations leave behind) under a watchdog: every operation must RETURN - an eviction loop that stops making progress while it holds the queue mutex blocks every other caller for ever")],
         "monitors": ["C17"],
         "rule": "scheduled runs of real threads; a run is non-trivial when some thread acquired a lock while holding another (nesting is what can deadlock); distinct by (schedule, event trace)",
@@ -242,9 +243,9 @@ PROPS = {
     },
     "C20": {
         "lean_modules": ["Cachelito.Props.C20"],
-        "streams": [macro_stream(nontrivial=["c20-suspended", "c20-dropped", "c20-resumed"], quick=300,
+        "streams": [macro_stream(nontrivial=["c20-suspended", "c20-dropped", "c20-resumed"], quick=1000,
                                  what="L2 with manual polling: real #[cache_async] functions whose bodies have 1-3 await points (a gate future) are polled until they suspend at a chosen await; while suspended a conditional invalidation of the same cache must complete on another thread (3 s watchdog), arbitrary other calls (same and other arguments) and invalidations run, then the call is resumed or dropped; outputs and the dump of every cache instance compared with Cachelito.aStep per operation"), static_stream(),
-                    sched_stream(nontrivial=["concurrent-call"], quick=(6, 4, 80),
+                    sched_stream(nontrivial=["concurrent-call"], quick=(6, 8, 60),
                                  what="L3: real threads run async calls (each suspends at the awaits of its body and stores on resumption) against group and conditional invalidations of the same cache under the deterministic scheduler; at quiescence every async cache must be consistent (store = queue as sets, no duplicates, within its limit)"), hammer_stream()],
         "monitors": ["C20"],
         "rule": "episodes over real async generated functions with begin / resume / drop operations at every await point (k-th of 1..3) interleaved with other operations; non-trivial = a call actually suspended in its body, resumed, or dropped",
@@ -266,7 +267,7 @@ PROPS = {
     "C15": {
         "lean_modules": ["Cachelito.Props.C15", "Cachelito.Props.C15b", "Cachelito.Props.C15c"],
         "streams": [core_stream(nontrivial=["hit", "expiry"]), macro_stream(nontrivial=["stats-get", "stats-reset", "hit"]),
-                    sched_stream(nontrivial=["quiescent-stats-checked"], quick=(6, 4, 60)), hammer_stream(), counters_stream()],
+                    sched_stream(nontrivial=["quiescent-stats-checked"], quick=(6, 8, 50)), hammer_stream(), counters_stream()],
         "monitors": ["C15"],
         "rule": "L1: counters in every state dump; L2: stats_registry::get(name) after every call, get/reset by name incl. unknown names; non-trivial = hit, expiry-as-miss, stats query or reset",
         "level_text": "Lean theorems (sequential): every lookup bumps exactly one counter, hits iff it returned a value (an expired entry is a miss), nothing else touches the counters, hits+misses = number of lookups for every history. Tied to the code by the counters in every L1 state dump and by the registry's per-name statistics after every L2 call. Concurrent part: in scheduled runs of real threads (incl. lookups of expired entries racing with each other and with stores) hits+misses at quiescence must equal the number of completed calls and hits the number of calls served from the cache; and (C15c) in the interleaving model the counters equal the number of counted lookups at every point of every schedule and are exact at quiescence, hits = lookups that returned a value (fetch_add atomicity is assumed).",
@@ -276,8 +277,11 @@ PROPS = {
     },
     "C16": {
         "lean_modules": ["Cachelito.Props.C16", "Cachelito.Props.C05a", "Cachelito.Props.C16s"],
-        "streams": [core_stream(nontrivial=["eviction", "expiry", "oversize"], quick=540, thorough=24000,
-                                what="L1 over the full product flavour x policy x limit x ttl x max_memory x fw; every operation under catch_unwind, debug assertions and overflow checks on")],
+        "streams": [core_stream(nontrivial=["eviction", "expiry", "oversize"], quick=1200, thorough=24000,
+                                what="L1 over the full product flavour x policy x limit x ttl x max_memory x fw; every operation under catch_unwind, debug assertions and overflow checks on"),
+                    macro_stream(nontrivial=["call"], quick=600, what="L2: every operation on the real generated functions (calls on all flavours incl. thread scope under every policy, invalidations, statistics) runs under catch_unwind; a panic is a C16 violation"),
+                    sched_stream(nontrivial=["concurrent-call"], quick=(6, 8, 50), what="L3: scheduled runs of real threads (memory-aware stores racing with each other and with invalidations leave map entries without queue slot in flight): no call may panic under any explored schedule"),
+                    hammer_stream()],
         "monitors": ["C16"],
         "rule": "every operation of every generated episode runs under catch_unwind with overflow checks on; non-trivial = a step that evicts, purges or takes the oversize path (the paths that used to panic)",
         "level_text": "Lean theorems for each panic-capable primitive: random index always in range and guarded on the empty queue, scan positions below the queue length, every eviction on a non-empty consistent cache finds a victim, the thread-local RefCell borrow regions of every operation/policy/branch never conflict (and the pre-fix code's did), built-in estimators never underflow, eviction loops terminate. Tied to the code by running the full configuration product under catch_unwind. Translator tie: the RefCell borrow nesting of thread_local_cache.rs is extracted from the current source on every run (Generated/BorrowNesting.lean) and C16s proves that no borrow is taken while a conflicting borrow of the same cell is alive.",
